@@ -94,8 +94,9 @@ def main() -> int:
     if args.store and confirmed:
         dest = VERIF / "seeded" / (args.store_as or f"{args.prop}{args.suffix}")
         dest.mkdir(parents=True, exist_ok=True)
-        shutil.copy(patch, dest / "patch.diff")
-        shutil.copy(demo, dest / "demo.py")
+        if patch.resolve() != (dest / "patch.diff").resolve():
+            shutil.copy(patch, dest / "patch.diff")
+            shutil.copy(demo, dest / "demo.py")
         meta = {}
         mp_ = d / f"meta{args.suffix}.json"
         if mp_.exists():
@@ -104,6 +105,10 @@ def main() -> int:
             except ValueError:
                 meta = {"raw": mp_.read_text()}
         meta["property"] = args.prop
+        prev = meta.get("confirmed_by_coordinator")
+        if prev:
+            # keep the history: what the checks said the first time (before any strengthening)
+            meta.setdefault("earlier_results", []).append(prev.get("result"))
         meta["confirmed_by_coordinator"] = {
             "how": "vp/seedtest.py on a scratch copy of /repo: demo.py exit 0 on clean copy, patch applies, demo.py non-zero on patched copy, "
             "repository test suite (PYTHONPATH=<copy>/src pytest -x) still green, then the checks' quick commands with VERIF_SRC=<copy>/src",
